@@ -1497,6 +1497,16 @@ impl<'a> CompileState<'a> {
         Ok(())
     }
 
+    /// `at_most`/`exactly` count one fact past the limit, so the limit must leave room for that.
+    fn count_limit_successor(&self, limit: &IntLiteral) -> Result<i64, CompileError> {
+        limit.checked_add(1).ok_or_else(|| {
+            self.err(BadArgument(
+                "count limit is too large".to_string(),
+                limit.span(),
+            ))
+        })
+    }
+
     fn compile_counting_function(
         &mut self,
         cmp_type: FactCountType,
@@ -1520,7 +1530,7 @@ impl<'a> CompileState<'a> {
             }
             FactCountType::AtMost(_) => {
                 self.append_instruction(Instruction::FactCount(
-                    limit.checked_add(1).assume("fact count too large")?,
+                    self.count_limit_successor(&limit)?,
                 ));
                 self.append_instruction(Instruction::Const(ConstValue::Int(*limit)));
                 self.append_instruction(Instruction::Gt);
@@ -1528,7 +1538,7 @@ impl<'a> CompileState<'a> {
             }
             FactCountType::Exactly(_) => {
                 self.append_instruction(Instruction::FactCount(
-                    limit.checked_add(1).assume("fact count too large")?,
+                    self.count_limit_successor(&limit)?,
                 ));
                 self.append_instruction(Instruction::Const(ConstValue::Int(*limit)));
                 self.append_instruction(Instruction::Eq);
